@@ -76,6 +76,16 @@ def shapes():
     out.append(_t("function h(int x) -> int { x = x * 2; return x; }\nexport function f(int a) -> int { int x = a + 1; int r = h(x); return r * 10 + x; }", "same local name in caller", ["names"], small=True))
     out.append(_t("function h(int a) -> int { a = a * 2; return a; }\nexport function f(int a) -> int { int r = h(a + 1); return r * 10 + a; }", "same param name", ["names"], small=True))
     out.append(_t("function h(int a) -> int { int t = a; t += 3; return t; }\nexport function f(int a) -> int { int t = 9; int r = h(a); return r * 10 + t; }", "same local name in callee", ["names"], small=True))
+    # loops with break / continue in several functions of one module, and several loops in one function
+    for kw in ("break", "continue"):
+        out.append(_t(f"function cnt(int m, int a) -> int {{ int s = 0; for (int i = 0; i < m; ++i) {{ if (i == a) {kw}; s += 1; }} return s; }}\n"
+                      f"export function f(int n, int a, int b) -> int {{ int s = 0; int i = 0; while (i < n) {{ i = i + 1; if (i == b) {kw}; s += cnt(n, a); }} return s; }}",
+                      f"loops with {kw} in caller and callee", ["loop", "jump"], {"n": (0, 3)}))
+        out.append(_t(f"export function f(int n, int a, int b) -> int {{ int s = 0; for (int i = 0; i < n; ++i) {{ if (i == a) {kw}; s += 1; }} for (int j = 0; j < n; ++j) {{ if (j == b) {kw}; s += 10; }} "
+                      f"int k = 0; do {{ k++; if (k == a) {kw}; s += 100; }} while (k < n) return s; }}", f"three loops in sequence with {kw}", ["loop", "jump"], {"n": (0, 3)}))
+        out.append(_t(f"function first(int m, int a) -> int {{ int s = 0; int i = 0; do {{ i++; if (i == a) {kw}; s += i; }} while (i < m) return s; }}\n"
+                      f"function second(int m, int a) -> int {{ int s = 0; for (int i = 0; i < m; ++i) {{ if (i == a) {kw}; s += 2; }} return s; }}\n"
+                      f"export function f(int n, int a) -> int {{ return first(n, a) * 100 + second(n, a); }}", f"{kw} in two helper functions", ["loop", "jump"], {"n": (0, 3)}))
     return out
 
 
